@@ -6,7 +6,7 @@ Driver for C09. Case line (see harness/c09):
 
   <id> P <entry 0|1|2> <metrics> <tracing> <listen 0|1|2|3> <starts: n b…> <readies: n b…> <nReload> <shuts: n b…> <stops: n b…>
        <reqs: n (H j | D | N)…> <rounds: n (trig  n b…  (0 | 1 j)  pair)…>
-    => LOG n <event>… RES <code> FIN <app> <met> RQ n <0|1|2>… RR n <0|1|2|9>…
+    => LOG n <event>… RES <code> FIN <app> <met> <logs held> RQ n <0|1|2>… RR n <0|1|2|9>…
 
 events:  s i a m z | S i | y i a m z | l r i | L r i | q k | Q k m | c | h i a m live | H i | f | p i a m | P i | r
 -/
@@ -121,11 +121,12 @@ def pObs : P Obs := do
   lit "FIN"
   let fa ← bool
   let fm ← bool
+  let fh ← bool
   lit "RQ"
   let rq ← list pReqRes
   lit "RR"
   let rr ← list pRRes
-  pure { log := log, res := res, finApp := fa, finMet := fm, reqs := rq, rounds := rr }
+  pure { log := log, res := res, finApp := fa, finMet := fm, finHeld := fh, reqs := rq, rounds := rr }
 
 def b01 (b : Bool) : String := if b then "1" else "0"
 
@@ -157,12 +158,12 @@ def showRRes : RRes → String
 
 def showObs (o : Obs) : String :=
   s!"LOG {o.log.length} " ++ " ".intercalate (o.log.map showEv) ++
-  s!" RES {showRes o.res} FIN {b01 o.finApp} {b01 o.finMet} RQ {o.reqs.length} " ++
+  s!" RES {showRes o.res} FIN {b01 o.finApp} {b01 o.finMet} {b01 o.finHeld} RQ {o.reqs.length} " ++
   " ".intercalate (o.reqs.map showReqRes) ++ s!" RR {o.rounds.length} " ++
   " ".intercalate (o.rounds.map showRRes)
 
 /-- `fx` = the variant of the code the implementation observations come from: `current` in a check run;
-    `C09_FIXES=abcde` (five 0/1 flags) lets the as-shipped model be validated against an as-shipped tree -/
+    `C09_FIXES=abcdeg` (six 0/1 flags) lets the as-shipped model be validated against an as-shipped tree -/
 def stepWith (fx : Fixes) (line : String) : String :=
   match splitCase line with
   | none => "? bad-line"
@@ -181,13 +182,13 @@ end Rivaas.DriverC09
 
 def parseFixes (s : String) : Option Rivaas.Lifecycle.Fixes :=
   match s.toList.map (· == '1') with
-  | [a, b, c, d, e] => some ⟨a, b, c, d, e⟩
+  | [a, b, c, d, e, g] => some ⟨a, b, c, d, e, g⟩
   | _ => none
 
 def main : IO UInt32 := do
   let fx ← match (← IO.getEnv "C09_FIXES") with
     | some s => match parseFixes s with
       | some f => pure f
-      | none => do IO.eprintln "C09_FIXES must be five 0/1 flags (a b c d e)"; return 2
+      | none => do IO.eprintln "C09_FIXES must be six 0/1 flags (a b c d e g)"; return 2
     | none => pure Rivaas.Lifecycle.current
   Rivaas.Proto.driverMain (Rivaas.DriverC09.stepWith fx)
